@@ -168,6 +168,14 @@ def op_ewd(scn):
         out["_ret_is_arg"] = red is D
     if scn.get("viz"):
         out["trace"] = [c.degs(h["divisor"]) for h in viz.history]
+        if red is not None and c.n:
+            # snapshots must be independent of the live objects: disturb the returned divisor
+            red.lending_move(c.names[0])
+            D.borrowing_move(c.names[-1])
+            if [c.degs(h["divisor"]) for h in viz.history] != out["trace"]:
+                out["trace"] = "ALIASED"
+            D.lending_move(c.names[-1])
+            red.borrowing_move(c.names[0])
         qs = [h["q"] for h in viz.history if h["q"] is not None]
         out["q"] = c.index(qs[0]) if qs else None
     else:
@@ -322,6 +330,18 @@ def op_div_arith(scn):
     out["chip"] = d(call(chipfiring.chip, G, c.name(scn["chipv"])))
     from chipfiring.CFDivisor import zero
     out["zero"] = d(call(zero, G))
+    # results must be fresh objects: disturbing a result must not disturb an operand
+    aliased = False
+    for mk in (lambda: A + B, lambda: A - B, lambda: -A, lambda: k * A, lambda: B + A):
+        okr, R = call(mk)
+        if okr and c.n:
+            before = (c.degs(A), [B.degrees[v] for v in B.degrees])
+            nm = next(iter(R.degrees)).name
+            R.degrees[Vertex(nm)] += 1
+            if (c.degs(A), [B.degrees[v] for v in B.degrees]) != before:
+                aliased = True
+            R.degrees[Vertex(nm)] -= 1
+    out["result_aliases_operand"] = aliased
     out["A_after"] = ddig(c, A)
     if G2 is G or scn.get("names2") is None:
         out["B_after"] = ddig(c, B)
@@ -808,6 +828,65 @@ def op_winnable_hist(scn):
         call(G.add_edge, c.name(a), c.name(b), k)
         outs.append(verdicts())
     return {"verdicts": outs, "graph": c.gdigest(G)}
+
+
+
+def canon_elements(c, elements):
+    nodes, edges = [], []
+    for el in elements:
+        d = el.get("data", {})
+        if "source" in d:
+            parts = d["id"].split("-")
+            a, b, i = c.index(parts[0]), c.index(parts[1]), int(parts[2])
+            oriented = bool(d.get("oriented"))
+            if oriented != (d.get("arrow_shape") == "triangle"):
+                oriented = "INCONSISTENT"
+            edges.append({"id": [a, b, i], "oriented": oriented,
+                          "dir": [c.index(d["source"]), c.index(d["target"])] if oriented is True else None,
+                          "_ends": sorted([c.index(d["source"]), c.index(d["target"])])})
+        else:
+            name = d["id"]
+            label = d.get("label", "")
+            chips = None
+            if label != name:
+                head, _, tail = label.rpartition("\n")
+                chips = int(tail) if head == name else "BADLABEL"
+            nodes.append([c.index(name), chips, d.get("divisor_sign")])
+    nodes.sort(key=lambda x: x[0])
+    edges.sort(key=lambda e: e["id"])
+    bad_ends = any(e["_ends"] != e["id"][:2] for e in edges)
+    for e in edges:
+        del e["_ends"]
+    return nodes, edges, bad_ends
+
+
+@op("elements")
+def op_elements(scn):
+    from chipfiring import CFVisualizer as V
+    from chipfiring.CFEWDVisualizer import EWDVisualizer
+    c = Ctx(scn)
+    ok, G = call(c.graph, scn)
+    if not ok:
+        return "ERR"
+    D = c.divisor(G, scn["deg"])
+    ok, O = call(CFOrientation, G, [(c.name(a), c.name(b)) for a, b in scn.get("orient", [])])
+    if not ok:
+        return "ERR"
+    out = {}
+    flags = []
+    for key, els in (("graph", V._graph_to_cytoscape_elements(G)),
+                     ("divisor", V._divisor_to_cytoscape_elements(D)),
+                     ("orientation", V._orientation_to_cytoscape_elements(O)),
+                     ("ewd", EWDVisualizer()._get_elements(D, O, set(), set(), c.names[0] if c.n else None))):
+        nodes, edges, bad = canon_elements(c, els)
+        out[key + "_nodes"] = nodes
+        out[key + "_edges"] = edges
+        flags.append(bad)
+    if any(flags):
+        out["endpoints_mismatch"] = True
+    out["node_count"] = len(out["graph_nodes"])
+    out["edge_element_count"] = len(out["graph_edges"])
+    return out
 
 
 # ----------------------------------------------------------------------------- main loop
